@@ -926,6 +926,28 @@ def lmer_lemmas(F, rep, which=None, ktypes=None):
             def want(x, which=which):
                 return x in ("new", "from_slice") and (which is None or x in which)
 
+        if which is None or "debug" in which:
+            # {:?}: the letters of bases 0..len in order and nothing else — in particular for lengths that fill whole storage words
+            dkey = "<%s as std::fmt::Debug>::fmt" % tystr
+            if dkey in F.insts:
+                for ell in sorted({0, 1, 31, 32, 33, 63, 64, 65, ML - 1, ML} & set(range(ML + 1))):
+                    def f_dbg(ell=ell, dkey=dkey, tag=tag, lt=lt):
+                        h = render_harness()()
+                        run_inst(F, dkey, [Ref(Cell(lt.mk(lt.words("s", ell, ell)), "self")), Ref(Cell(Opaque("Formatter", {"fmt"}), "f"))], h)
+                        rep.evaluations += 1
+                        text = "".join(h.out)
+                        wtext = "".join("<r:%s|%s>" % (bv.t_str(var("s", 2 * p_)), bv.t_str(var("s", 2 * p_ + 1))) for p_ in range(ell))
+                        k_ = "%s/Debug/len=%d" % (tag, ell)
+                        if h.bad or "\u0001" in text:
+                            rep.inconclusive("L-lmer-text", k_, "Debug: %s" % (h.bad[0] if h.bad else text[:120]))
+                        elif text == wtext:
+                            rep.holds("L-lmer-text", k_, "{:?} of a %d-base string writes its %d letters in order" % (ell, ell), nontrivial=False)
+                        else:
+                            got = re.findall(r"<r:[^>]*>|.", text)
+                            rep.violated("L-lmer-text", k_, "{:?} of a %d-base string writes %d symbols (%s…); specified: the %d letters of bases 0..%d in order" % (
+                                ell, len(got), "".join(got[:2])[:60], ell, ell), witness={"kind": "render", "len": ell})
+                    guarded(rep, "L-lmer-text", "%s/Debug/len=%d" % (tag, ell), "Debug", f_dbg)
+
         if want("new"):
             def f_max():
                 r, _ = run_inst(F, lt.key("Vmer", "max_len"), [])
@@ -1714,7 +1736,8 @@ def slice_getkmer_lemmas(F, rep, rule="C15.1", quick=True):
                     guarded(rep, rule, "view-getkmer/" + vk, "get_kmer", f)
 
 
-def slice_exact_lemmas(F, rep, rule="C15.1", nback=70, quick=True):
+def slice_exact_lemmas(F, rep, rule="C15.1", nback=70, quick=True, only=None):
+    """`only`: restrict to the named conversions (to_owned, bytes, ascii, to_dna_string, Display, Debug); the equality table is then skipped"""
     from .absint import tags_of
     from .dt import Oracles, explore
     try:
@@ -1778,7 +1801,8 @@ def slice_exact_lemmas(F, rep, rule="C15.1", nback=70, quick=True):
                 ws[w][bh], ws[w][bl] = hi, lo
             expect_dna(rep, rule, "exact/to_owned/" + vk, dt, r, ws, ln,
                        "to_owned() of the view (start %d, length %d, is_rc %s) is the canonical DnaString of the substring%s" % (st, ln, rc, " reverse-complemented" if rc else ""))
-        guarded(rep, rule, "exact/to_owned/" + vk, "to_owned", f_owned)
+        if only is None or "to_owned" in only:
+            guarded(rep, rule, "exact/to_owned/" + vk, "to_owned", f_owned)
 
         def f_bytes():
             it = Interp(F, False, Harness())
@@ -1791,7 +1815,8 @@ def slice_exact_lemmas(F, rep, rule="C15.1", nback=70, quick=True):
                 rep.holds(rule, "exact/bytes/" + vk, "bytes() lists the %d bases of the view in order" % ln)
             else:
                 rep.violated(rule, "exact/bytes/" + vk, "bytes() of the view (start %d, length %d, is_rc %s) is %r" % (st, ln, rc, r), witness={"kind": "render"})
-        guarded(rep, rule, "exact/bytes/" + vk, "bytes", f_bytes)
+        if only is None or "bytes" in only:
+            guarded(rep, rule, "exact/bytes/" + vk, "bytes", f_bytes)
 
         for nm, kind in (("ascii", "vec"), ("to_dna_string", "vec"), ("std::fmt::Display>::fmt", "fmt"), ("std::fmt::Debug>::fmt", "fmt")):
             short = nm.split("::")[-2].rstrip(">") if kind == "fmt" else nm
@@ -1827,9 +1852,12 @@ def slice_exact_lemmas(F, rep, rule="C15.1", nback=70, quick=True):
                     else:
                         rep.violated(rule, k, "%s of the view (start %d, length %d, is_rc %s) writes %r, specified %r" % (short, st, ln, rc, text[:80], wtext[:80]),
                                      witness={"kind": "render", "got": text[:200], "want": wtext[:200]})
-            guarded(rep, rule, "exact/%s/%s" % (short, vk), short, f_r)
+            if only is None or short in only:
+                guarded(rep, rule, "exact/%s/%s" % (short, vk), short, f_r)
 
     nback = nback0
+    if only is not None:
+        return
     # ---- equality: exact table.  Operands over the same or different backing strings; every comparison of two base values is an oracle
     # named by the provenance of both operands; the verdict must be `all positions equal`, and `true` may only be returned when every
     # position whose two provenance terms are not identical has been compared (ANF terms are canonical: different terms differ somewhere)
@@ -2409,3 +2437,59 @@ def kmer_iter_e2e_lemmas(F, rep, rule="L-iter"):
                             guarded(rep, rule, key + "/size_hint", "size_hint", f_sh)
                         else:
                             rep.inconclusive(rule, key + "/" + m, "the iterator overrides Iterator::%s; no lemma relates it to next()" % m)
+
+
+
+def lmer_eq_table(F, rep, rule="C17.eq", only_if_by_hand=True):
+    """`==` / `!=` of fixed-size strings, interpreted on structured operand pairs for every exported capacity: equal strings; the same
+    bases with a different length (the shorter one followed by A's — identical words except the length byte); one complemented base at
+    the first / a middle / the last position (also in a word other than the first).  Required: equal exactly when length and bases agree,
+    and symmetric."""
+    from . import structural
+    d = structural.derives(F, "vmer::Lmer")
+    by_hand = [tr for tr in ("std::cmp::PartialEq",) if tr in d and not d[tr]]
+    if only_if_by_hand and not by_hand:
+        return
+    caps = sorted({k.split(" as ")[0][1:] for k in F.insts if k.startswith("<vmer::Lmer<[u64; ") and k.endswith("std::cmp::PartialEq>::eq")})
+    if not caps:
+        rep.inconclusive(rule, "vmer::Lmer/eq", "no monomorphic instance of Lmer's PartialEq::eq in the driver's facts")
+        return
+    for ty in caps:
+        lt = LmerT(F, ty)
+        lens = sorted({0, 1, 4, 20, 31, 32, 33, min(40, lt.max_len), lt.max_len - 1, lt.max_len} & set(range(lt.max_len + 1)))
+        rows = []
+        for la in lens:
+            rows.append(("same", la, la, None))
+            for lb in lens:
+                if lb != la:
+                    rows.append(("length", la, lb, None))
+            for j in sorted({0, la // 2, la - 1} & set(range(la))):
+                rows.append(("base", la, la, j))
+        for kind, la, lb, j in rows:
+            for meth in ("eq", "ne"):
+                key = "%s/%s/%s/la=%d/lb=%d%s" % (ty, meth, kind, la, lb, "" if j is None else "/pos=%d" % j)
+
+                def f(kind=kind, la=la, lb=lb, j=j, meth=meth, key=key, lt=lt, ty=ty):
+                    wa = lt.words("s", la, la)
+                    wb = lt.words("s", lb, min(la, lb))
+                    if j is not None:
+                        w, hi, lo = lt.pos_bits(j)
+                        wb[w][lo] = t_not(wb[w][lo])
+                    want_eq = (kind == "same")
+                    for (x, y, tag) in ((wa, wb, "a,b"), (wb, wa, "b,a")):
+                        r, _ = run_inst(F, "<%s as std::cmp::PartialEq>::%s" % (ty, meth), [Ref(Cell(lt.mk(x), "x")), Ref(Cell(lt.mk(y), "y"))])
+                        rep.evaluations += 1
+                        if not (isinstance(r, Int) and r.is_conc()):
+                            rep.inconclusive(rule, key, "%s(%s) = %r" % (meth, tag, r))
+                            return
+                        got_eq = bool(r.val) if meth == "eq" else not bool(r.val)
+                        if got_eq != want_eq:
+                            what = {"same": "two equal strings of %d bases" % la,
+                                    "length": "a string of %d bases and the string of %d bases that %s" % (
+                                        la, lb, "continues it with A's" if lb > la else "is its prefix"),
+                                    "base": "two strings of %d bases that differ at position %d" % (la, j if j is not None else -1)}[kind]
+                            rep.violated(rule, key, "%s on %s (operands %s) says %s; strings are equal exactly when their lengths and all their bases agree" % (
+                                meth, what, tag, "equal" if got_eq else "different"), witness={"kind": "row", "row": {"la": la, "lb": lb, "pos": j, "order": tag}})
+                            return
+                    rep.holds(rule, key, "%s agrees with the strings (both operand orders)" % meth, nontrivial=False)
+                guarded(rep, rule, key, meth, f)
